@@ -497,13 +497,13 @@ fn mixed_headers_case(legacy_slot: u64) {
     }
     std::mem::forget(db);
 }
-// @ob props=C15,C02 tier=quick cap=600 fns=DBInner::meta,Page::meta,Meta::valid,Page::old_meta,OldMeta::valid bound="slot 0 legacy header (tx 6), slot 1 current-format header (tx 7), concrete fields" unwind=40
+// @ob props=C15,C02 tier=quick cap=400 fns=DBInner::meta,Page::meta,Meta::valid,Page::old_meta,OldMeta::valid bound="slot 0 legacy header (tx 6), slot 1 current-format header (tx 7), concrete fields" unwind=40
 #[kani::proof]
 #[kani::unwind(40)]
 fn db_meta_legacy_then_current_header() {
     mixed_headers_case(0);
 }
-// @ob props=C15,C02 tier=quick cap=600 fns=DBInner::meta,Page::meta,Meta::valid,Page::old_meta,OldMeta::valid bound="slot 1 legacy header (tx 6), slot 0 current-format header (tx 7), concrete fields" unwind=40
+// @ob props=C15,C02 tier=quick cap=400 fns=DBInner::meta,Page::meta,Meta::valid,Page::old_meta,OldMeta::valid bound="slot 1 legacy header (tx 6), slot 0 current-format header (tx 7), concrete fields" unwind=40
 #[kani::proof]
 #[kani::unwind(40)]
 fn db_meta_current_then_legacy_header() {
